@@ -129,13 +129,15 @@ def scenario(C, E, progs, choose, transport='plain', capw=300, capr=50, fine=Fal
             def on_out(pk):
                 if getattr(pk, 'pid', None) != trig:
                     return
+                if act == 'x':
+                    raise ValueError('listener refuses packet %d' % trig)
                 if act == 'd':
                     conn.disconnect()
                 else:
                     extra = serverbound.play.ChatPacket(message='m%d' % (900 + trig) + 'x' * ((900 + trig) % 7))
                     extra.pid = 900 + trig
                     conn.write_packet(extra, force=(act == 'f'))
-            conn.register_packet_listener(on_out, serverbound.play.ChatPacket, outgoing=True)
+            conn.register_packet_listener(on_out, serverbound.play.ChatPacket, outgoing=True, early=(act == 'x'))
         nt = INT(conn)
         nt.sched_tid = 0
         conn.networking_thread = nt
@@ -151,6 +153,17 @@ def scenario(C, E, progs, choose, transport='plain', capw=300, capr=50, fine=Fal
                         conn.options.compression_threshold = arg
                         conn.options.compression_enabled = True
                         S.emit('zon')
+                    elif kind == 'E':
+                        # a caller that falls back to an immediate disconnect whatever the graceful one raised
+                        try:
+                            conn.disconnect()
+                        except Exception:
+                            try:
+                                conn.disconnect(immediate=True)
+                            except Exception as e:
+                                caller_errors.append((tid, 'disconnect', repr(e)))
+                        S.before('ddone')
+                        S.emit('ddone')
                     elif kind == 'D':
                         # what PlayingReactor does on a server disconnect: graceful, and if the flush
                         # fails, immediate
@@ -454,6 +467,42 @@ def run(ctx):
         if r['errors']:
             ctx.violation('%s: a thread raised: %r' % (label, r['errors'][:2]), {'programs': prog_str(progs), 'schedule': r['ran'][:300]},
                           key={'programs': prog_str(progs), 'schedule': r['ran'][:300], 'kind': 'thread-error'})
+    # ---- the flush of a graceful disconnect is aborted by an exception that is NOT an IOError (an early
+    # outgoing listener raises); the caller then disconnects immediately: the socket must get closed and
+    # nothing may be sent afterwards
+    for i in range(ctx.scale(40, 400)):
+        n1 = rng.randint(1, 5)
+        progs = [[('q', k) for k in range(1, n1 + 1)] + [('E', 0)]]
+        if i % 2:
+            progs.append([('q', 10 + k) for k in range(rng.randint(1, 3))])
+        trig = rng.randint(1, n1)
+        bias = rng.random()
+
+        def choose(en, n, bias=bias):
+            users = [x for x in en if x != 0]
+            if users and rng.random() < 0.6 + bias / 3:
+                return rng.choice(users)
+            return rng.choice(en)
+        r = scenario(C, E, progs, choose, 'plain', listener=(trig, 'x'))
+        label = 'graceful disconnect aborted by a listener exception on packet %d, then disconnect(immediate=True)' % trig
+        ctx.case(('aborted-flush', prog_str(progs), trig, tuple(r['ran'])), sample={'programs': prog_str(progs), 'kind': 'aborted-flush'})
+        ctx.count('aborted_flush_walks')
+        log = r['log']
+        done_at = next((j for j, e in enumerate(log) if e[1] == 'ddone'), None)
+        bad = None
+        if r.get('stuck'):
+            bad = 'the networking thread never ends although the disconnect returned (%s)' % r['stuck']
+        elif done_at is not None:
+            later = [e for e in log[done_at:] if e[1] == 'snd']
+            if later:
+                bad = 'packets %r were sent after the disconnect returned' % sorted({e[2] for e in later})
+            elif not r['closed']:
+                bad = 'the socket is still open when the disconnect has returned and every thread is done'
+        if not bad and r['caller_errors']:
+            bad = 'an API call raised to its caller: %r' % (r['caller_errors'][:2],)
+        if bad:
+            ctx.violation('%s: %s' % (label, bad), {'programs': prog_str(progs), 'schedule': r['ran'][:300], 'trigger': trig},
+                          key={'programs': prog_str(progs), 'schedule': r['ran'][:300], 'kind': 'aborted-flush'})
     # ---- bulk: more queued packets than the networking thread writes per batch, then a graceful disconnect
     for i in range(ctx.scale(2, 6)):
         nq = [301, 310, 650, 305, 320, 900][i]
